@@ -236,7 +236,14 @@ struct Imports {
 }
 impl Coll for Imports {
     fn add(&mut self, v: u32) -> (usize, bool) {
-        let (_, id) = self.m.add_import_global("m", &format!("v{}", v), ValType::I32, false, false);
+        // values 2k and 2k+1 share the name "v<k>": the even one is a global import, the odd one a function import
+        let name = format!("v{}", v / 2);
+        let id = if v % 2 == 0 {
+            self.m.add_import_global("m", &name, ValType::I32, false, false).1
+        } else {
+            let ty = self.m.types.add(&[], &[]);
+            self.m.add_import_func("m", &name, ty).1
+        };
         let r = issue!(self, id);
         if r.1 {
             self.vals.push(v);
@@ -245,9 +252,10 @@ impl Coll for Imports {
         r
     }
     fn del(&mut self, k: usize) {
-        let first = (0..self.ids.len()).find(|i| self.alive[*i] && self.vals[*i] == self.vals[k]);
+        // by name when the name designates this very entry (the first live import of that name, of any kind)
+        let first = (0..self.ids.len()).find(|i| self.alive[*i] && self.vals[*i] / 2 == self.vals[k] / 2);
         if k % 2 == 1 && first == Some(k) {
-            let _ = self.m.imports.remove("m", format!("v{}", self.vals[k]));
+            let _ = self.m.imports.remove("m", format!("v{}", self.vals[k] / 2));
         } else {
             self.m.imports.delete(self.ids[k]);
         }
@@ -255,12 +263,29 @@ impl Coll for Imports {
     }
     fn get(&self, k: usize) -> Option<String> {
         let id = self.ids[k];
-        guarded(|| self.m.imports.get(id).name[1..].to_string()).ok()
+        let v = self.vals[k];
+        guarded(|| {
+            let i = self.m.imports.get(id);
+            let kind_ok = matches!((&i.kind, v % 2), (ImportKind::Global(_), 0) | (ImportKind::Function(_), 1));
+            if kind_ok && i.name == format!("v{}", v / 2) { v.to_string() } else { format!("?{}", i.name) }
+        })
+        .ok()
     }
-    fn iter(&self) -> Vec<String> { self.m.imports.iter().map(|e| e.name[1..].to_string()).collect() }
-    fn iter_mut_vals(&mut self) -> Option<Vec<String>> { Some(self.m.imports.iter_mut().map(|e| e.name[1..].to_string()).collect()) }
+    fn iter(&self) -> Vec<String> {
+        self.m.imports.iter().map(|e| format!("{}", e.name[1..].parse::<u32>().unwrap_or(99) * 2 + if matches!(e.kind, ImportKind::Function(_)) { 1 } else { 0 })).collect()
+    }
+    fn iter_mut_vals(&mut self) -> Option<Vec<String>> {
+        Some(self.m.imports.iter_mut().map(|e| format!("{}", e.name[1..].parse::<u32>().unwrap_or(99) * 2 + if matches!(e.kind, ImportKind::Function(_)) { 1 } else { 0 })).collect())
+    }
     fn find(&self, v: u32) -> Option<Option<usize>> {
-        Some(self.m.imports.find("m", &format!("v{}", v)).map(|id| self.ids.iter().position(|x| *x == id).unwrap_or(usize::MAX)))
+        let name = format!("v{}", v / 2);
+        let by_name = self.m.imports.find("m", &name).map(|id| self.ids.iter().position(|x| *x == id).unwrap_or(usize::MAX));
+        // a function import of that name is live <=> get_func finds one
+        let want_func = (0..self.ids.len()).any(|i| self.alive[i] && self.vals[i] % 2 == 1 && self.vals[i] / 2 == v / 2);
+        if self.m.imports.get_func("m", &name).is_ok() != want_func {
+            return Some(Some(usize::MAX - 1));
+        }
+        Some(by_name)
     }
     fn issued(&self) -> usize { self.ids.len() }
 }
